@@ -127,6 +127,9 @@ int Simulate8008::run(int max_cycles, int step)
 
   printf("Running... Press Ctl-C to break.\n");
 
+  // A halt (or Ctl-C) in an earlier run must not stop this one.
+  stop_running = false;
+
   while (stop_running == false)
   {
     pc_current = pc;
